@@ -21,6 +21,10 @@ func c13Handlers(c *vk.Ctx) {
 		for wrap := 0; wrap <= 5; wrap++ {
 			for end := 0; end < 3; end++ {
 				switch {
+				case small[base] && wrap == 0:
+					// the bare handlers are small enough for three deviations (a seeded change needed exactly
+					// three free switches among the goroutines of one router session)
+					add(base, wrap, end, 1, vk.Pick(c, 3, 4), true, vk.Pick(c, 120.0, 400.0))
 				case small[base] && wrap <= 2:
 					// deviation bound: any non-default choice costs one (the order in which the goroutines
 					// of a session notice the cancellation is decided by such choices)
